@@ -189,6 +189,7 @@ func convert(k reflect.Kind, s string) (interface{}, error) {
 type reqSpec struct {
 	multipart bool                           // form values travel as multipart/form-data
 	stream    bool                           // the body is a stream of unknown length (a chunked request on a streaming server)
+	only      string                         // "" = Bind; otherwise the single-source entry point BindQuery/BindHeader/BindForm/BindPath
 	emptyJSON bool                           // JSON media type, empty body
 	ctCase    int                            // spelling of the media type: 0 lower case, 1 mixed case, 2 upper-case type with a parameter
 	vals      map[string]map[string][]string // source -> key -> values
@@ -540,7 +541,7 @@ func genReqSpec(r *mon.Rand, fields []fieldSpec) reqSpec {
 }
 
 func (rs reqSpec) desc() string {
-	return fmt.Sprintf("%v multipart=%v stream-of-unknown-length=%v media-type-spelling=%d json-media-type-with-empty-body=%v", rs.vals, rs.multipart, rs.stream, rs.ctCase, rs.emptyJSON)
+	return fmt.Sprintf("%v multipart=%v stream-of-unknown-length=%v media-type-spelling=%d json-media-type-with-empty-body=%v entry-point=Bind%s", rs.vals, rs.multipart, rs.stream, rs.ctCase, rs.emptyJSON, rs.only)
 }
 
 func typeOf(fields []fieldSpec) reflect.Type {
@@ -561,10 +562,25 @@ func bindOnce(b binding.Binder, t reflect.Type, fields []fieldSpec, rs reqSpec) 
 				err = fmt.Errorf("PANIC %v", p)
 			}
 		}()
-		if b == nil {
-			err = binding.Bind(req, v.Interface(), ps)
-		} else {
-			err = b.Bind(req, v.Interface(), ps)
+		bb := b
+		if bb == nil {
+			bb = binding.DefaultBinder()
+		}
+		switch rs.only {
+		case "query":
+			err = bb.BindQuery(req, v.Interface())
+		case "header":
+			err = bb.BindHeader(req, v.Interface())
+		case "form":
+			err = bb.BindForm(req, v.Interface())
+		case "path":
+			err = bb.BindPath(req, v.Interface(), ps)
+		default:
+			if b == nil {
+				err = binding.Bind(req, v.Interface(), ps)
+			} else {
+				err = b.Bind(req, v.Interface(), ps)
+			}
 		}
 	}()
 	if err != nil {
@@ -619,10 +635,41 @@ func work(w *mon.W) {
 	w.Cases("type", uint64(w.Pick(2500, 100000)), func(c *mon.Case) {
 		r := c.R
 		fields := genFields(r)
+		// one type in six is bound through a single-source entry point (BindQuery, …): every
+		// field carries that source's tag only (plus default / required, which mean the same
+		// there as under Bind)
+		only := ""
+		if r.Chance(6) {
+			only = r.Str("query", "header", "form", "path")
+			for i := range fields {
+				f := &fields[i]
+				if f.slice && only == "path" {
+					f.slice, f.defltS = false, nil
+					if strings.HasPrefix(f.deflt, "[") {
+						f.deflt = ""
+					}
+				}
+				key := fmt.Sprintf("k%d%s", i, only[:1])
+				if only == "header" {
+					key = fmt.Sprintf("X-K%d", i)
+				}
+				req := false
+				for _, v := range f.required {
+					req = req || v
+				}
+				f.tags = map[string]string{only: key}
+				f.required = map[string]bool{only: req}
+			}
+			w.Count("types_single_source", 1)
+		}
 		t := typeOf(fields)
 		w.Count("types", 1)
 		for k := 0; k < 4; k++ {
 			rs := genReqSpec(r, fields)
+			rs.only = only
+			if only != "" {
+				rs.emptyJSON = false
+			}
 			c.Detail = func() interface{} { return map[string]interface{}{"type": describe(fields), "request": rs.vals} }
 			var first map[string]string
 			var firstErr error
